@@ -145,22 +145,22 @@ theorem keymap_filter_off (i : Nat) (X : List Row) (hk : PW (fun r => r.key i) X
 /-! ## the view of a transaction -/
 
 /-- `TDif.view` as a function of the adds and deletes -/
-def viewOf (S : List Row) (A : List Row) (D : List Off) : List Row :=
+def viewRows (S : List Row) (A : List Row) (D : List Off) : List Row :=
   S.filter (fun r => !D.contains r.off) ++ A
 
-theorem view_eq (d : TDif) (S : List Row) : d.view S = viewOf S d.adds d.dels := rfl
+theorem view_eq (d : TDif) (S : List Row) : d.view S = viewRows S d.adds d.dels := rfl
 
-theorem viewOf_nil (S : List Row) : viewOf S [] [] = S := by
-  simp [viewOf]
+theorem viewRows_nil (S : List Row) : viewRows S [] [] = S := by
+  simp [viewRows]
 
 /-- `dropRow` removes exactly the row with that offset from the view -/
 theorem view_dropRow (S : List Row) (d : TDif) (o : Off) (ho : OffsUniq (d.view S)) :
-    viewOf S (dropRow d o).1 (dropRow d o).2 = (d.view S).filter (fun y => y.off != o) := by
+    viewRows S (dropRow d o).1 (dropRow d o).2 = (d.view S).filter (fun y => y.off != o) := by
   have hpw := PW.append.mp ho
   simp only [TDif.view, List.filter_append]
   unfold dropRow
   by_cases ha : d.adds.any (·.off == o) = true
-  · simp only [ha, if_true, viewOf]
+  · simp only [ha, if_true, viewRows]
     congr 1
     symm
     rw [List.filter_eq_self]
@@ -169,7 +169,7 @@ theorem view_dropRow (S : List Row) (d : TDif) (o : Off) (ho : OffsUniq (d.view 
     have := hpw.2.2 y hy a haA
     have hao' : a.off = o := by simpa using hao
     simpa [← hao'] using this
-  · simp only [ha, viewOf]
+  · simp only [ha, viewRows]
     have hA : d.adds.filter (fun y => y.off != o) = d.adds := by
       rw [List.filter_eq_self]
       intro y hy
